@@ -7,3 +7,4 @@ def load_all():
         return
     _loaded = True
     from . import unit_database  # noqa
+    from . import quantity  # noqa
